@@ -3,6 +3,7 @@ package main
 import (
 	"fmt"
 	"go/ast"
+	"math/big"
 	"go/token"
 	"go/types"
 	"os"
@@ -26,6 +27,7 @@ type Engine struct {
 	assumeSites []string
 	repo        string
 	loadErrs    []string
+	usedWf      bool
 }
 
 func (eng *Engine) isPureFunc(f *types.Func) bool {
@@ -389,6 +391,21 @@ func (eng *Engine) verifyFunc(ct *Contract) (res *FuncResult) {
 			}
 		}
 	}()
+	if ct.CaseVar == "" {
+		eng.verifyFuncCase(ct, res, -1)
+		return res
+	}
+	for k := range ct.CaseVals {
+		eng.verifyFuncCase(ct, res, k)
+	}
+	eng.verifyFuncCase(ct, res, len(ct.CaseVals)) // exhaustiveness
+	return res
+}
+
+// verifyFuncCase runs the symbolic execution once. caseIdx<0: no case split. 0..n-1: the case variable is
+// bound to the k-th literal. n: only the exhaustiveness obligation (requires => var is one of the literals).
+func (eng *Engine) verifyFuncCase(ct *Contract, res *FuncResult, caseIdx int) {
+	fi := ct.Fn
 	x := &Exec{eng: eng, top: fi, usedContracts: map[string]bool{}, curProps: ct.Props}
 	f := &Frame{fi: fi, info: fi.Pkg.TypesInfo, contract: ct}
 	x.frames = []*Frame{f}
@@ -401,6 +418,7 @@ func (eng *Engine) verifyFunc(ct *Contract) (res *FuncResult) {
 	s.assume(And(Cmp("<", RealLitF(3.14159), PI), Cmp("<", PI, RealLitF(3.1416))))
 	// parameters
 	info := fi.Pkg.TypesInfo
+	var caseObj types.Object
 	bind := func(fl *ast.FieldList, isResult bool) {
 		if fl == nil {
 			return
@@ -416,6 +434,9 @@ func (eng *Engine) verifyFunc(ct *Contract) (res *FuncResult) {
 					f.results = append(f.results, obj)
 				} else {
 					s.env[obj] = x.havocParam(s, obj)
+					if nm.Name == ct.CaseVar {
+						caseObj = obj
+					}
 				}
 			}
 		}
@@ -423,25 +444,47 @@ func (eng *Engine) verifyFunc(ct *Contract) (res *FuncResult) {
 	bind(fi.Decl.Recv, false)
 	bind(fi.Decl.Type.Params, false)
 	bind(fi.Decl.Type.Results, true)
+	suffix := ""
+	var caseLits []*Term
+	if ct.CaseVar != "" {
+		if caseObj == nil {
+			panic("cases: no parameter named " + ct.CaseVar)
+		}
+		for _, v := range ct.CaseVals {
+			r, ok := new(big.Rat).SetString(v)
+			if !ok {
+				panic("cases: bad literal " + v)
+			}
+			if eng.tm.sortOf(caseObj.Type()) == SReal {
+				caseLits = append(caseLits, RealLit(r))
+			} else {
+				caseLits = append(caseLits, IntLitBig(r.Num()))
+			}
+		}
+		if caseIdx < len(caseLits) {
+			suffix = fmt.Sprintf(".case%d", caseIdx+1)
+		}
+	}
 	// axioms about globals (all packages: globals of canvas are read from renderers too)
 	for _, p := range eng.pkgs {
 		for _, ax := range eng.axioms[p.PkgPath] {
 			x.clauseInfo = append(x.clauseInfo, ax.Info)
 			x.frames = append(x.frames, &Frame{fi: fi, info: p.TypesInfo, inlined: true})
 			// "Global == literal" binds the global's entry value directly
+			done := false
 			if be, ok := ax.Expr.(*ast.BinaryExpr); ok && be.Op == token.EQL {
 				if id, ok := be.X.(*ast.Ident); ok {
 					if gv, ok := x.objOf(id).(*types.Var); ok && x.isGlobal(gv) {
 						if _, has := s.heap[x.globalName(gv)]; !has {
 							x.heapSet(s, x.globalName(gv), x.eval(s, be.Y))
-							x.frames = x.frames[:len(x.frames)-1]
-							x.clauseInfo = x.clauseInfo[:len(x.clauseInfo)-1]
-							continue
+							done = true
 						}
 					}
 				}
 			}
-			s.assume(x.evalCond(s, ax.Expr))
+			if !done {
+				s.assume(x.evalCond(s, ax.Expr))
+			}
 			x.frames = x.frames[:len(x.frames)-1]
 			x.clauseInfo = x.clauseInfo[:len(x.clauseInfo)-1]
 		}
@@ -454,11 +497,31 @@ func (eng *Engine) verifyFunc(ct *Contract) (res *FuncResult) {
 	for _, rq := range ct.Requires {
 		s.assume(x.evalClauseIn(s, entryEnv, fi, rq, nil, s))
 	}
+	if ct.CaseVar != "" && caseIdx == len(caseLits) {
+		// exhaustiveness of the case split
+		var alts []*Term
+		for _, l := range caseLits {
+			alts = append(alts, Eq(s.env[caseObj], l))
+		}
+		x.obligeNamed(s, fi.Key+"/cases-exhaustive", "requires", Or(alts...), x.pos(fi.Decl.Pos()), "cases "+ct.CaseVar+" "+strings.Join(ct.CaseVals, " "))
+		res.Obls = append(res.Obls, x.obls...)
+		return
+	}
+	if ct.CaseVar != "" {
+		// substitute the literal for the parameter symbol everywhere
+		lit := caseLits[caseIdx]
+		sub := map[*Term]*Term{s.env[caseObj]: lit}
+		for i, a := range s.assumes {
+			s.assumes[i] = Substitute(a, sub)
+		}
+		s.env[caseObj] = lit
+		entryEnv[caseObj] = lit
+	}
 	entry := s.clone()
 	f.entry = entry
 	x.oldStates = []*State{entry}
 	// vacuity probe: requires must be satisfiable
-	x.obls = append(x.obls, &Obligation{Name: res.shortKey(fi) + "/vacuity", Kind: "vacuity", Func: fi.Key, Hyps: append([]*Term(nil), s.assumes...), Goal: nil, Pos: x.pos(fi.Decl.Pos()), Text: "preconditions satisfiable", fi: fi, Props: ct.Props})
+	x.obls = append(x.obls, &Obligation{Name: fi.Key + "/vacuity" + suffix, Kind: "vacuity", Func: fi.Key, Hyps: append([]*Term(nil), s.assumes...), Goal: nil, Pos: x.pos(fi.Decl.Pos()), Text: "preconditions satisfiable", fi: fi, Props: ct.Props})
 	if ct.Trusted == "" {
 		out := x.execBlock(s, fi.Decl.Body.List)
 		if out != nil && !out.dead {
@@ -471,7 +534,9 @@ func (eng *Engine) verifyFunc(ct *Contract) (res *FuncResult) {
 		// ensures at every return
 		for ri, r := range f.rets {
 			for _, en := range ct.Ensures {
+				x.goalMode = true
 				g := x.evalClauseIn(r.s, entryEnv, fi, en, r.vals, entry)
+				x.goalMode = false
 				name := fmt.Sprintf("%s/ensures#%d", fi.Key, en.Ord)
 				if len(f.rets) > 1 {
 					name = fmt.Sprintf("%s/ensures#%d.ret%d", fi.Key, en.Ord, ri+1)
@@ -481,19 +546,37 @@ func (eng *Engine) verifyFunc(ct *Contract) (res *FuncResult) {
 				x.curClause = nil
 			}
 		}
-		res.Paths = len(f.rets)
+		res.Paths += len(f.rets)
 	}
-	res.Obls = x.obls
-	res.Notes = x.notes
+	if suffix != "" {
+		for _, o := range x.obls {
+			if !strings.HasSuffix(o.Name, suffix) {
+				o.Name += suffix
+			}
+		}
+	}
+	res.Obls = append(res.Obls, x.obls...)
+	res.Notes = append(res.Notes, x.notes...)
+	seen := map[string]bool{}
+	for _, a := range res.Abstracted {
+		seen[a] = true
+	}
 	for k := range x.abstracted {
-		res.Abstracted = append(res.Abstracted, k)
+		if !seen[k] {
+			res.Abstracted = append(res.Abstracted, k)
+		}
 	}
 	sort.Strings(res.Abstracted)
+	seenU := map[string]bool{}
+	for _, a := range res.Used {
+		seenU[a] = true
+	}
 	for k := range x.usedContracts {
-		res.Used = append(res.Used, k)
+		if !seenU[k] {
+			res.Used = append(res.Used, k)
+		}
 	}
 	sort.Strings(res.Used)
-	return res
 }
 
 func (r *FuncResult) shortKey(fi *FuncInfo) string { return fi.Key }
